@@ -655,6 +655,43 @@ def shared_weight_model(rng):
   return mb.finish(), {'n_subgraphs': 1, 'ops': [2]}
 
 
+def tied_unknown_model(rng):
+  """two signatures: sig0 = FULLY_CONNECTED(x, W, b); sig1 = MAXIMUM(x', C) where C is
+  tied (same BUFFER) to W or to b: a constant shared between an operator a recipe
+  quantizes in one subgraph and an operator the quantizer does not know in another"""
+  mb = ModelBuilder(rng, name_style=0)
+  n = rng.choice([2, 3, 4])
+  tie_weight = rng.random() < 0.5
+  gbs = []
+  # sig0
+  g0 = GraphBuilder(mb, 0, 'sig0')
+  x = g0.act('sig0_x', (1, n)); g0.g.inputs.append(x)
+  w = g0.fconst('sig0/fc/w', [n, n], kind='normal')
+  b = g0.fconst('sig0/fc/b', [n], kind='normal')
+  y = g0.act('sig0/fc/out', (1, n))
+  g0.op(B.FULLY_CONNECTED, [x, w, b], [y], S.BuiltinOptions.FullyConnectedOptions,
+        g0._mk(S.FullyConnectedOptionsT, fusedActivationFunction=0, keepNumDims=False, weightsFormat=0))  # pylint: disable=protected-access
+  g0.g.outputs = np.array([y], dtype=np.int32); g0.g.inputs = np.array(g0.g.inputs, dtype=np.int32)
+  # sig1
+  g1 = GraphBuilder(mb, 1, 'sig1')
+  x1 = g1.act('sig1_x', (1, n)); g1.g.inputs.append(x1)
+  src = g0.g.tensors[w if tie_weight else b]
+  c = g1.tensor('sig1/maximum/c', [n, n] if tie_weight else [n], FLOAT32, buffer=src.buffer)
+  y1 = g1.act('sig1/maximum/out', (n, n) if tie_weight else (1, n))
+  g1.op(B.MAXIMUM, [x1, c], [y1], S.BuiltinOptions.MaximumMinimumOptions, g1._mk(S.MaximumMinimumOptionsT))  # pylint: disable=protected-access
+  g1.g.outputs = np.array([y1], dtype=np.int32); g1.g.inputs = np.array(g1.g.inputs, dtype=np.int32)
+  for gi, (gb, xin, yout) in enumerate(((g0, x, y), (g1, x1, y1))):
+    mb.m.subgraphs.append(gb.g)
+    sd = S.SignatureDefT()
+    sd.signatureKey = f'sig{gi}'.encode()
+    sd.subgraphIndex = gi
+    sd.inputs, sd.outputs = [], []
+    tm = S.TensorMapT(); tm.name = b'x'; tm.tensorIndex = int(xin); sd.inputs.append(tm)
+    tm = S.TensorMapT(); tm.name = b'y'; tm.tensorIndex = int(yout); sd.outputs.append(tm)
+    mb.m.signatureDefs.append(sd)
+  return mb.finish(), {'n_subgraphs': 2, 'ops': [1, 1], 'tie_weight': tie_weight}
+
+
 def biasless_fc_model(rng):
   """x -> FULLY_CONNECTED(w, no bias: operand index -1) -> RELU/NEG -> y: the tensor table
   ends with tensors of an operator a FULLY_CONNECTED-only recipe leaves alone"""
